@@ -13,7 +13,7 @@ Variants(f) == CASE f = "csv" -> {"default", "quoteall", "crlf", "semi", "tabfs"
                  [] f = "json" -> {"default", "jsonl", "nowrap", "oneline"}
                  [] f = "dkvp" -> {"default", "semi"}
                  [] f = "nidx" -> {"default", "comma"}
-                 [] f = "xtab" -> {"default"}
+                 [] f = "xtab" -> {"default", "wideps"}        \* wideps: a pair separator of one character and several bytes
                  [] f = "pprint" -> {"default", "barred", "right"}
                  [] f = "markdown" -> {"default"}
                  [] f = "csvlite" -> {"default", "semi"}
@@ -116,7 +116,7 @@ LongStreams(f, v) ==
                ELSE { << <<P(<<"k", LTok(n)>>, Y), P(K(f, v, 2), Z)>>, <<P(<<"k", LTok(n)>>, Z), P(K(f, v, 2), Y)>> >>,
                       << <<P(K(f, v, 1), Y), P(<<"k", LTok(n)>>, Z)>> >> }) : n \in LongN}
 FVs == {<<f, v>> : f \in (IF F = "all" THEN Formats ELSE {F}), v \in {"default", "quoteall", "crlf", "semi", "tabfs", "headerless", "ragged",
-                                                                      "jsonl", "nowrap", "oneline", "comma", "barred", "right"}}
+                                                                      "jsonl", "nowrap", "oneline", "comma", "barred", "right", "wideps"}}
 Case(k, f, v, fam, st, s) == [k |-> k, f |-> f, v |-> v, fam |-> fam, st |-> st, s |-> s]
 RawRT == UNION {
            {Case("rt", fv[1], fv[2], fam, "-", StreamOf(fam, fv[1], fv[2], c)) : fam \in Families, c \in ProbeCells(fv[1], fv[2])}
